@@ -160,6 +160,76 @@ CLAIMED = {
         technique="Coq proof (case analysis over the try/with/finally structure with an induction over write pieces; history induction with a cache-justification invariant) + model/implementation correspondence with fault and crash injection",
         design_ref="DESIGN.md 5/C16",
     ),
+    "C01": dict(
+        text="Theorems over the Gallina model of Guard's evaluation core (environment construction, compiled function / "
+             "interpreter / set evaluator at any nesting depth, built-in obligation checker, Decision; every policy tree whose "
+             "leaves name a known algorithm or none and use permit/deny effects - implied by schema validity -, every request, "
+             "both type modes, any role-resolver answer, any relationship oracle): allowed=true implies that the policy "
+             "contains a permit rule whose actions, resource target and condition all match the request, whose obligations "
+             "are the ones returned and are not refused by the built-in checker; allowed iff effect = permit (any checker); no "
+             "applicable rule, or no rules, implies deny; a raw permit names a rule on every path. The check judges exactly "
+             "that on the implementation's Decision, using per-rule facts computed by the extracted model (applicable? effect? "
+             "obligations verdict?) - a spurious permit is a violation with the (policy, request, configuration) as replay - and "
+             "also compares the whole Decision with the model (broken correspondence when only that differs).",
+        note="Trusted: Coq kernel; model tied to the code by differential execution only; extraction; harness. The decision cache is "
+             "not in this model (C08 proves transparency and the harness evaluates cached cases twice); sync/async/in-loop entry "
+             "points are one function in the model (C14 ties the flavours). Role resolver and relationship checker are oracles "
+             "whose recorded answers are replayed into the model.",
+        technique="Coq proof (explanation of every raw decision by an applicable rule: loop prefix + declarative spec, structural induction over nested sets, compiled-bucket subset lemma, obligation gate) + direct property judgement with model-computed facts + correspondence",
+        design_ref="DESIGN.md 5/C01",
+    ),
+    "C07": dict(
+        text="Fifteen theorems over the model of BasicObligationChecker.check (as repaired) and of the engine's gate: on a permit the "
+             "verdict is positive iff every obligation aimed at permit is satisfied, otherwise negative with the challenge of the "
+             "FIRST unmet obligation in list order; a positive verdict implies all targeted obligations satisfied (fail closed); a "
+             "non-permit raw decision never gets a positive verdict; no built-in requirement raises inside the int() domain; the "
+             "documented table type by type (flags truthy; level int(level or 0) >= min with invalid min = 0 and non-convertible "
+             "level unmet; consent truthy / truthy at key of a consent object; re-auth age present, convertible and <= max_age; "
+             "http_challenge never met, challenge by scheme); unknown types and obligations aimed at the other effect ignored; "
+             "missing/null/ill-typed values unmet; the engine turns a negative verdict of ANY checker (sync or async) into "
+             "allowed=false, effect deny, reason obligation_failed and that challenge. The model's verdict is the only one the "
+             "property allows: the correspondence run (8 types x on x attrs shapes x ~30 context values, all ordered pairs, "
+             "triples, through Guard cold and cached, custom sync/async checkers) reports any difference, and any exception of "
+             "the built-in checker, as a violation.",
+        note="Trusted: Coq kernel; model tied to the code by differential execution only; extraction; harness. Python int() on text is "
+             "modelled for ASCII ([ws][+-]digits with single underscores[ws]); non-ASCII text is outside the model; CPython's "
+             "4300-digit limit is not generated. Obligation items are objects (schema); a raising custom checker keeps the permit "
+             "(pinned by the suite, stated in the gate theorems as the None case).",
+        technique="Coq proof (induction over the obligation list; per-type characterisation) + exhaustive-in-the-small correspondence, direct and through the engine",
+        design_ref="DESIGN.md 5/C07",
+    ),
+    "C11": dict(
+        text="Theorems over the same engine model as C01, for ANY obligation checker: a non-null rule id names a rule of the policy "
+             "(any depth, any path) that is applicable and has the reported effect - explicit_deny for deny, matched for a "
+             "granted permit, obligation_failed for a permit the checker revoked - and obligations returned with a permit are "
+             "that rule's; with no rule reported the decision is a deny whose reason is no_match or a mismatch kind some rule of "
+             "the policy exhibits on this request; single policies and sets are explained separately (set results are those of "
+             "a leaf policy's own result, reason normalised); one audit payload and one metric per evaluation agreeing with the "
+             "decision, sinks cannot influence it (by construction in the model). The check judges all of this on the "
+             "implementation's Decision with model-computed per-rule facts, checks policy_id against the top-level child "
+             "containing the rule, counts and compares audit payloads and metrics on cold and cached evaluations, and re-runs "
+             "every case with raising sinks.",
+        note="'Exactly one record per evaluation' and 'sinks are inert' are by construction in the model; it is the correspondence "
+             "run that shows the implementation emits exactly one and ignores sink failures. Otherwise as C01.",
+        technique="Coq proof (explanation theorems shared with C01; induction over nested sets; no-rule reason lemma) + direct property judgement + audit/metric counting + raising-sink reruns",
+        design_ref="DESIGN.md 5/C11",
+    ),
+    "C14": dict(
+        text="Theorems over a hand-written lock/thread model (Conc.v) of HotReloader.check_and_reload/_async/start/stop/_run_loop and "
+             "Guard.evaluate_sync: for all 196 configurations of the stated finite family (both calling contexts, <=4 threads) and "
+             "every schedule, no reachable state is deadlocked, no lock is left behind, and every run that stops starting new "
+             "polling rounds reaches 'every called entry point has returned' (exhaustive in-Coq exploration lifted by a closed-set "
+             "soundness lemma + rank argument); the pre-fix programs are refuted with witnesses (F10: never returns on any "
+             "schedule; F11). The sync=async / no cross-talk / no mutation part is judged directly on the implementation "
+             "(differential across 8 API flavours x sync/async collaborators, 50-way concurrent vs sequential, deep + identity "
+             "equality); in the model it is trivial.",
+        note="PARTIAL: lock programs hand-transcribed (tied per run by watchdog runs per configuration, by trace inclusion of the "
+             "implementation's observed lock events in the model, and by an AST lock-skeleton comparison); threading/asyncio/"
+             "ThreadPoolExecutor semantics assumed; implementation observed on sampled + three forced schedules only; hang = no "
+             "return in 10 s.",
+        technique="Coq finite-state exploration with proved soundness (vm_compute) + rank/termination lemma + differential, watchdog and trace-inclusion correspondence",
+        design_ref="DESIGN.md 5/C14",
+    ),
 }
 
 PENDING_REASON = ("check not built yet at this commit (work in progress; the design in DESIGN.md section 5 covers it and "
